@@ -26,10 +26,10 @@ open Aidl Aidl.Actions Aidl.Lr Aidl.Props.PL
 /-- **The error branch is never silent**: when the driver stops with a parse error, the stored
     result has no tree and ends with an Error diagnostic covering the error's span. -/
 theorem error_branch_not_silent (env : Env) (id : String) (s : St) (e : ParseErr) (r : FileResult)
-    (h : Lr.finish env id s (.error e) = .ok r) :
+    (h : Lr.finishE env id s (.error e) = .ok r) :
     r.ast = none ∧ ∃ d, r.diags = s.diags ++ [d] ∧ d.kind = .error
       ∧ d.range.start.off = (errSpan e).1 ∧ d.range.stop.off = (errSpan e).2 := by
-  unfold Lr.finish at h
+  unfold Lr.finishE at h
   simp only at h
   cases hf : runM (fromParseError e) env s.diags with
   | error m =>
